@@ -105,6 +105,20 @@ func c17Scenarios() []*dscenario {
 			sc.pass, sc.key = c17Pass, c17Key
 			l = append(l, sc)
 		}
+		// the tool builds the URLs from the addresses of the info file
+		// (no SIMULATE_ROUTER): addresses net/url rejects, a refused
+		// connection, the simulator as the (backup) address that answers
+		if isHTTPS(t) {
+			for _, f := range []string{"drc-C", "do-compare"} {
+				for _, a := range [][]string{{"SIM"}, {"2001:db8:10:1::a"}, {"2001:db8:10:1::a", "SIM"}, {"[::1]:1", "SIM"}, {"bad host", "SIM"}, {"10.1.13.33:https", "SIM"}} {
+					sc := baseScenario(t, f)
+					sc.name += "/addresses=" + strings.Join(a, ",")
+					sc.pass, sc.key = c17Pass, c17Key
+					sc.addrs = a
+					l = append(l, sc)
+				}
+			}
+		}
 		// enable password and host-key question on the way
 		if t == "ASA" || t == "IOS" {
 			sc := baseScenario(t, "do-approve")
@@ -127,7 +141,7 @@ func c17Worker(ctx *core.Ctx) *core.Result {
 func init() {
 	registerSharded("C17", c17Worker, func(tier string) core.Meta {
 		return core.Meta{ID: "C17", Level: "fault_enumeration",
-			Rule: "5 device types x 7 front ends (drc, drc -C, drc -q, drc --LOGFILE, do-approve approve / compare, do-approve --brief) (+ enable-password / host-key variants) with secrets that contain characters needing URL escaping (password) resp. the full base64 alphabet incl. + / = (API key, XSRF token); baseline (success) plus every single deviation of C09's alphabet at every answer point from the first login step on; after each run every file below the base directory (session logs .login/.config/.change/.cmp, run log, history, status, lock), stdout and stderr are scanned for each secret in plain, query-escaped, path-escaped, XML-escaped, plus-as-blank form and for every 8-byte window of it; non-trivial = runs with a deviation",
+			Rule: "5 device types x 7 front ends (drc, drc -C, drc -q, drc --LOGFILE, do-approve approve / compare, do-approve --brief) (+ enable-password / host-key variants; PAN-OS/NSX compare runs without SIMULATE_ROUTER, where the tool builds its URLs from the ip_list of the info file: an IPv6 address without brackets and other strings net/url rejects, a refused connection, the simulator as first or backup address) with secrets that contain characters needing URL escaping (password) resp. the full base64 alphabet incl. + / = (API key, XSRF token); baseline (success) plus every single deviation of C09's alphabet at every answer point from the first login step on; after each run every file below the base directory (session logs .login/.config/.change/.cmp, run log, history, status, lock), stdout and stderr are scanned for each secret in plain, query-escaped, path-escaped, XML-escaped, plus-as-blank form and for every 8-byte window of it; non-trivial = runs with a deviation",
 			Assumptions: []string{"the device does not echo at password prompts (a real device does not); a device that printed a secret itself is outside"},
 			Bounds:      map[string]any{"deviations": "bound 1"},
 		}
